@@ -611,9 +611,46 @@ class Engine:
         for s, v in self.ev_list(e.elts, st):
             if isinstance(v, Raised):
                 out.append((s, v))
+            elif any(isinstance(x, tuple) and x and x[0] == 'star' for x in v):
+                out.append((s, self.starred_list(s, v, e)))
             else:
                 out.append((s, s.alloc(VList(v))))
         return out
+
+    def starred_list(self, s, items, node):
+        """[*xs, y, *ys]: a NEW list, the concatenation xs + [y] + ys.  Starred operands may be symbolic lists
+        (VSeq) or dynamically typed values (VPy; that it is a list of str becomes an obligation - unpacking None
+        raises TypeError, a str unpacks into characters)."""
+        elem = None
+        for x in items:
+            if isinstance(x, tuple) and x[0] == 'star':
+                if isinstance(x[1], VSeq):
+                    elem = elem or x[1].elem
+                elif isinstance(x[1], VPy):
+                    elem = elem or parse_type('str')
+                else:
+                    raise Unsupported(f'starred list display over {x[1]!r}')
+        parts = []
+        for x in items:
+            if isinstance(x, tuple) and x[0] == 'star':
+                v = x[1]
+                if isinstance(v, VPy):
+                    P_ = pyobj_sort()
+                    self.oblige(s, 'unpacked-pyobj-is-list', P_.is_py_strlist(v.z), node)
+                    if elem.kind != 'str':
+                        raise Unsupported('starred pyobj list among non-str elements')
+                    parts.append(P_.py_l(v.z))
+                else:
+                    if sort_of(v.elem) != sort_of(elem):
+                        raise Unsupported('starred list display mixing element types')
+                    parts.append(v.z)
+            else:
+                xv = self.deref(s, x)
+                if isinstance(xv, VPy) and elem.kind != 'pyobj':
+                    raise Unsupported('dynamically typed element in a starred list display')
+                parts.append(z3.Unit(to_z3(xv, elem)))
+        z = parts[0] if len(parts) == 1 else z3.Concat(*parts)
+        return VSeq(z, elem)
 
     def ev_Set(self, e, st):
         out = []
